@@ -166,6 +166,16 @@ def _c15_last():
         return {"input": "ratio 100 only on the whole sample of length 3", "issue": "the last observation is not examined", "returned": str(r)[:200]}
 
 
+def _c15_float32():
+    from permute import sprt as S
+    x = [1] * 116 + [0] * 84
+    for dt in (np.float32, np.float16):
+        r = guarded(S.bernoulli_lh_ratio, np.array(x, dtype=dt), 0.5, 0.625)
+        if r[0] != "ok" or not (abs(float(r[1]) - 5.58094360256345) <= 1e-9):
+            return {"input": f"bernoulli_lh_ratio(116 ones and 84 zeros stored as {np.dtype(dt).name}, 0.5, 0.625)",
+                    "issue": "the ratio depends on the dtype the 0/1 sample is stored in (expected 5.58094360256345)", "returned": str(r)[:200]}
+
+
 CORPUS = {
     "C01": [("D1-spearman", "spearman_corr", _c01_spearman)],
     "C02": [("D3-strat-t", "stratified_two_sample", _c02_t), ("D4-mean-statistic", "stratified_permutationtest_mean", _c02_mean_stat),
@@ -181,7 +191,7 @@ CORPUS = {
     "C11": [("D10-ties", "adjust_p", _c11_ties)],
     "C12": [("D11-kwargs", "binom_conf_interval", _c12_kwargs)],
     "C13": [("D12-nan", "hypergeom_conf_interval", _c13_nan)],
-    "C15": [("D13-last-observation", "sprt", _c15_last)],
+    "C15": [("D13-last-observation", "sprt", _c15_last), ("D18-float32-sample", "bernoulli_lh_ratio", _c15_float32)],
 }
 
 
